@@ -177,7 +177,15 @@ class Sim:
             if stats is not None:
                 stats.bump("steps-gated(ill-conditioned)")
             return
-        tolB = max(1e-8, 1e3 * EPS * cM)
+        # cancellation inside s.y itself (nearly orthogonal pairs accepted on rounding noise): the
+        # dense recursion and the compact form divide by differently rounded values of it
+        canc = max(EPS * float(np.linalg.norm(s_) * np.linalg.norm(y_)) / float(s_ @ y_) for s_, y_ in zip(S, Y))
+        if canc > 1e-5:
+            self.gated += 1
+            if stats is not None:
+                stats.bump("steps-gated(ill-conditioned)")
+            return
+        tolB = max(1e-8, 1e3 * EPS * cM, 1e2 * canc)
         Bc = compact_B_from_mats(self.mats, n)
         nb = float(np.linalg.norm(Bd, 2))
         dev = float(np.max(np.abs(Bc - Bd))) / nb
